@@ -426,6 +426,9 @@ func (h *hand) heartbeat() {
 	}
 	if h.faultsOn && h.fc.Neighbour && !h.closed() && h.rng.Chance(0.4) {
 		st := sim.Step{T: h.loop.Now, Actor: "server", Op: "neighbour", Mode: "warm", Fault: "neighbour-hand"}
+		if h.rng.Chance(0.5) {
+			st.Args = []int64{1} // played with the other ranking table
+		}
 		idx := len(h.r.steps)
 		h.r.steps = append(h.r.steps, st)
 		d := h.r.srv.deliver(&h.r.steps[idx], idx)
